@@ -678,6 +678,18 @@ func main() {
 	for _, src := range corpus {
 		checkProgram(src, map[string]int{"a": 1, "b": 1, "c": 1, "d": 1, "e": 1}, rng.Fork(), true)
 	}
+	// residence-dependent static limits: a variable mentioned k times inside a closure is ONE captured variable
+	// wherever it lives (k beyond the 255 captured-variable slots), and k distinct captured variables up to the limit
+	for _, k := range []int{2, 254, 255, 256, 300} {
+		terms := make([]string, k)
+		for i := range terms {
+			terms[i] = "x"
+		}
+		src := "x := 1\nf := func() { return " + strings.Join(terms, " + ") + " }\nout := f()\n"
+		checkProgram(src, map[string]int{"a": 1, "b": 1, "c": 1, "d": 1, "e": 1}, rng.Fork(), true)
+		src = "x := 1\nf := func() { g := func() { x += 1; return " + strings.Join(terms, " + ") + " }; return g() }\nout := f()\n"
+		checkProgram(src, map[string]int{"a": 1, "b": 1, "c": 1, "d": 1, "e": 1}, rng.Fork(), true)
+	}
 	n = f.Scale(350, 1200)
 	for i := 0; i < n; i++ {
 		r := rng.Fork()
